@@ -18,6 +18,7 @@ import (
 	"fmt"
 	"io"
 	"math/rand"
+	"net/http"
 	"os"
 	"os/exec"
 	"path/filepath"
@@ -26,6 +27,7 @@ import (
 	"sort"
 	"strings"
 	"sync"
+	"time"
 
 	"github.com/invopop/gobl"
 	"github.com/invopop/gobl/bill"
@@ -270,8 +272,127 @@ func bulkRun(repo, bin string, seed int64, streams int, out string) error {
 		}
 		emit(bulkEvent{Kind: "end"})
 	}
+	if bulkGobl != "" {
+		if err := bulkHTTPSign(w, out, r, docs, streams); err != nil {
+			return err
+		}
+	}
 	fmt.Printf("events=%d streams=%d\n", w.N, streams)
 	return w.Close()
+}
+
+// bulkGobl, when set, is the gobl command: streams of sign requests are also sent to `gobl serve`, whose bulk
+// end point signs with the server's key unless a request brings its own
+var bulkGobl string
+
+// bulkHTTPSign: sign requests with and without a key of their own, mixed in one stream.  Signatures differ from
+// run to run, so "equal to the standalone output" is judged by who signed: the request's key when it names one,
+// the server's key otherwise.
+func bulkHTTPSign(w *tr.Writer, out string, r *rand.Rand, docs [][]byte, streams int) error {
+	dir, err := os.MkdirTemp(filepath.Dir(out), "serve")
+	if err != nil {
+		return err
+	}
+	defer os.RemoveAll(dir)
+	serverKey, ownKey := dsig.NewES256Key(), dsig.NewES256Key()
+	kb, _ := json.Marshal(serverKey)
+	keyFile := filepath.Join(dir, "key.jwk")
+	if err := os.WriteFile(keyFile, kb, 0o600); err != nil {
+		return err
+	}
+	port := freePort()
+	srv := exec.Command(bulkGobl, "serve", "-p", fmt.Sprint(port), "-k", keyFile)
+	srv.Stdout, srv.Stderr = io.Discard, io.Discard
+	if err := srv.Start(); err != nil {
+		return fmt.Errorf("gobl serve: %w", err)
+	}
+	defer func() { srv.Process.Kill(); srv.Wait() }()
+	base := fmt.Sprintf("http://127.0.0.1:%d", port)
+	up := false
+	for i := 0; i < 100; i++ {
+		if resp, err := http.Get(base + "/"); err == nil {
+			resp.Body.Close()
+			up = true
+			break
+		}
+		time.Sleep(50 * time.Millisecond)
+	}
+	if !up {
+		return fmt.Errorf("gobl serve did not come up on port %d", port)
+	}
+	// unsigned, valid envelopes
+	var signable [][]byte
+	for _, d := range docs {
+		env := new(gobl.Envelope)
+		if json.Unmarshal(d, env) == nil && !env.Signed() && env.Validate() == nil {
+			signable = append(signable, d)
+		}
+		if len(signable) >= 12 {
+			break
+		}
+	}
+	if len(signable) == 0 {
+		return nil
+	}
+	n := streams / 10
+	if n < 6 {
+		n = 6
+	}
+	for t := 1; t <= n; t++ {
+		trid := 1000000 + t
+		cnt := 2 + r.Intn(10)
+		want := map[string]string{}
+		var ids []string
+		var body bytes.Buffer
+		enc := json.NewEncoder(&body)
+		for i := 0; i < cnt; i++ {
+			id := fmt.Sprintf("h%d-r%d", t, i+1)
+			ids = append(ids, id)
+			pl := map[string]any{"data": signable[r.Intn(len(signable))]}
+			want[id] = serverKey.ID()
+			if r.Intn(2) == 0 {
+				pl["privatekey"] = ownKey
+				want[id] = ownKey.ID()
+			}
+			enc.Encode(bulkRequest{Action: "sign", ReqID: id, Payload: pl})
+		}
+		k := 0
+		emit := func(ev bulkEvent) {
+			ev.Tr, ev.N = trid, k
+			if ev.IDs == nil {
+				ev.IDs = []string{}
+			}
+			k++
+			w.Emit(ev)
+		}
+		emit(bulkEvent{Kind: "start", NReq: cnt, IDs: ids})
+		resp, err := http.Post(base+"/bulk", "application/json", &body)
+		if err != nil {
+			emit(bulkEvent{Kind: "end", Err: true, Action: err.Error()})
+			continue
+		}
+		sc := bufio.NewScanner(resp.Body)
+		sc.Buffer(make([]byte, 1<<20), 1<<27)
+		for sc.Scan() {
+			var rs bulkResponse
+			if json.Unmarshal(sc.Bytes(), &rs) != nil {
+				continue
+			}
+			if rs.IsFinal {
+				emit(bulkEvent{Kind: "final", Seq: rs.SeqID, Req: rs.ReqID, Err: hasErr(rs.Error)})
+				continue
+			}
+			ev := bulkEvent{Kind: "resp", Seq: rs.SeqID, Req: rs.ReqID, Err: hasErr(rs.Error), Action: "sign", Cmp: true}
+			env := new(gobl.Envelope)
+			if !ev.Err && json.Unmarshal(rs.Payload, env) == nil && len(env.Signatures) == 1 && env.Signatures[0] != nil {
+				ev.Same = env.Signatures[0].KeyID() == want[rs.ReqID]
+			}
+			emit(ev)
+		}
+		resp.Body.Close()
+		emit(bulkEvent{Kind: "end"})
+	}
+	return nil
 }
 
 // ---- concurrent library use ---------------------------------------------------------------------------
@@ -682,7 +803,9 @@ func init() {
 		seed := fs.Int64("seed", 1, "seed")
 		n := fs.Int("streams", 50, "streams")
 		out := fs.String("out", "", "events ndjson")
+		goblBin := fs.String("gobl", "", "gobl command (for the HTTP bulk end point)")
 		fs.Parse(args)
+		bulkGobl = *goblBin
 		return bulkRun(*repo, *bin, *seed, *n, *out)
 	})
 	register("conc-run", func(args []string) error {
